@@ -254,8 +254,8 @@ class DiskBackend:
         packed, dirs = storage
         facts = []
         if final in dirs:
-            facts.append("dir-in-the-way")
-        if opkind == "add_if_new" and n != final and n in packed:
+            facts.append("dir-in-the-way")  # explains the failure on its own
+        elif opkind == "add_if_new" and n != final and n in packed:
             facts.append("symref-has-packed-entry")  # only add_if_new looks the symref's own name up
         return facts
 
@@ -550,8 +550,8 @@ class Run:
             want = "either" if False in rets else "ok"
         if out[0] == "exc":
             got = f"raised-{type(out[1]).__name__}"
-            if post == pre:
-                effect = "unchanged"
+            if not effect.startswith("state:"):
+                effect = "-"  # raised with the state unchanged or as expected: same bucket (the order of effects is not the root cause)
             # an exception is bucketed by what was raised, not by the kind of ref it hit
             sit = ",".join(sorted(t for t in tags if t.startswith("collision-")) + facts) or "-"
             if opkind.startswith(("set-", "del-")):
